@@ -10161,12 +10161,16 @@ class Format_Item_C1002(Base):  # pylint: disable=invalid-name
         # We may have a P edit descriptor (which requires a number
         # before the 'P') (1) or a slash edit descriptor with a repeat
         # specifier (3) so look for the repeat specifier.
-        found, index = skip_digits(strip_string)
+        # The scale factor of a P edit descriptor may carry a sign.
+        signed = strip_string[0] in "+-"
+        found, index = skip_digits(strip_string[1:] if signed else strip_string)
+        if signed:
+            index += 1
         if found:
             # We found a possible repeat specifier (which may contain
             # white space after the first digit)
             result = strip_string[index].upper()
-            if result == "/":
+            if result == "/" and not signed:
                 # We found a possible slash edit descriptor with a
                 # repeat specifier (3).
                 return (
